@@ -1223,3 +1223,106 @@ package spec
 //@   assumes  [C04] pseudo-root-wellformed @@ canonBase(normBase(".root"))
 //@   ensures  [C08] strict-propagates @@ failures > old(failures) ==> result != nil
 //@   ensures  [C08] no-spurious-error @@ result != nil ==> failures > old(failures)
+
+// ===========================================================================
+// Codecs: C01 C06 C07 C15 C19
+// ===========================================================================
+// JSON model (declared by govc): sort JV; jv(bytes) the value a text denotes; oCnt(J,k) / oVal(J,k) the members of an object;
+// enc_T / dec_T / decOK_T per member type.  The contract language reaches them through these spec functions:
+//@ specfn jv([]byte) smt:JV
+//@ specfn oCnt(smt:JV, string) int
+//@ specfn oVal(smt:JV, string) smt:JV
+//@ specfn isObj(smt:JV) bool
+//@ specfn jNull() smt:JV
+
+//@ define isExtKey(k string) bool = hasPrefix(lower(k), "x-")
+
+//@ func (VendorExtensible).MarshalJSON
+//@   property C01, C06, C07
+//@   assigns  nothing
+//@   ensures  [C01] non-nil @@ result1 == nil ==> result0 != nil
+//@   ensures  [C01] members @@ result1 == nil ==> isObj(jv(result0)) && (forall k string :: oCnt(jv(result0), k) == (has(v.Extensions, k) && isExtKey(k) ? 1 : 0))
+//@   ensures  [C01] values @@ result1 == nil ==> (forall k string :: has(v.Extensions, k) && isExtKey(k) ==> oVal(jv(result0), k) == encOf(v.Extensions[k]))
+//@   loop 0 invariant toser != nil && (forall k string :: has(toser, k) == ($seen0[k] && isExtKey(k)))
+//@   loop 0 invariant forall k string :: has(toser, k) ==> toser[k] == v.Extensions[k]
+
+//@ func (*VendorExtensible).UnmarshalJSON
+//@   property C01, C07
+//@   requires v != nil
+//@   assigns  v.Extensions, map(v.Extensions)
+//@   ensures  [C01] kept @@ result == nil ==> (forall k string :: oCnt(jv(data), k) > 0 && isExtKey(k) ==> has(v.Extensions, k) && v.Extensions[k] == decOf("interface{}", oVal(jv(data), k)))
+//@   ensures  [C07] only-extensions-added @@ forall k string :: has(v.Extensions, k) && !old(has(v.Extensions, k)) ==> isExtKey(k) && oCnt(jv(data), k) > 0
+//@   ensures  [C07] others-kept @@ forall k string :: old(has(v.Extensions, k)) && !(oCnt(jv(data), k) > 0 && isExtKey(k)) ==> has(v.Extensions, k) && v.Extensions[k] == old(v.Extensions[k])
+//@   ensures  [C07] error-iff-undecodable @@ (result == nil) == (isObj(jv(data)) && (forall k string :: oCnt(jv(data), k) > 0 ==> decOKOf("interface{}", oVal(jv(data), k))))
+//@   loop 0 invariant d != nil && d != v.Extensions && (forall k string :: has(d, k) == (oCnt(jv(data), k) > 0)) && (forall k string :: has(d, k) ==> d[k] == decOf("interface{}", oVal(jv(data), k)))
+//@   loop 0 invariant (v.Extensions == old(v.Extensions) || (old(v.Extensions) == nil && fresh(v.Extensions))) && (v.Extensions == nil ==> (forall k string :: !($seen0[k] && isExtKey(k))))
+//@   loop 0 invariant forall k string :: $seen0[k] && isExtKey(k) ==> has(v.Extensions, k) && v.Extensions[k] == d[k]
+//@   loop 0 invariant forall k string :: has(v.Extensions, k) && !old(has(v.Extensions, k)) ==> isExtKey(k) && $seen0[k]
+//@   loop 0 invariant forall k string :: old(has(v.Extensions, k)) && !($seen0[k] && isExtKey(k)) ==> has(v.Extensions, k) && v.Extensions[k] == old(v.Extensions[k])
+
+// normal form of the extension members of an object, and equality of two objects as JSON values
+//@ define nfExtensions(j smt:JV) bool = forall k string :: oCnt(j, k) > 0 && isExtKey(k) ==>
+//@       decOKOf("interface{}", oVal(j, k)) && encOf(decOf("interface{}", oVal(j, k))) == oVal(j, k)
+//@ define noDuplicates(j smt:JV) bool = forall k string :: oCnt(j, k) <= 1
+//@ define sameObject(a smt:JV, b smt:JV) bool = forall k string :: oCnt(a, k) == oCnt(b, k) && (oCnt(b, k) > 0 ==> oVal(a, k) == oVal(b, k))
+// no extension key coincides with a keyword of the kind (keywords never start with x-)
+//@ axiom isExtKey("x-") && !isExtKey("description") && !isExtKey("title") && !isExtKey("termsOfService") && !isExtKey("contact") && !isExtKey("license") && !isExtKey("version")
+
+//@ func verifLemmaInfoRoundTrip
+//@   property C01, C19
+//@   requires isObj(jv(data)) && noDuplicates(jv(data))
+//@   requires nfKind(jv(data), "InfoProps", "info") && nfExtensions(jv(data))
+//@   requires requiredPresent(jv(data), "info")
+//@   requires forall k string :: oCnt(jv(data), k) > 0 ==> knownKey("InfoProps", k) || isExtKey(k)
+//@   ensures  [C01] lossless @@ result != nil ==> sameObject(jv(result), jv(data))
+//@   excluding lossless @@ nfKindAll(jv(data), "InfoProps", "info")
+//@   ensures  [C19] required-kept @@ result != nil ==> requiredPresent(jv(result), "info")
+//@   excluding required-kept @@ nfKindAll(jv(data), "InfoProps", "info")
+
+//@ func verifLemmaContactInfoRoundTrip
+//@   property C01, C19
+//@   requires isObj(jv(data)) && noDuplicates(jv(data))
+//@   requires nfKind(jv(data), "ContactInfoProps", "contact") && nfExtensions(jv(data))
+//@   requires requiredPresent(jv(data), "contact")
+//@   requires forall k string :: oCnt(jv(data), k) > 0 ==> knownKey("ContactInfoProps", k) || isExtKey(k)
+//@   requires forall k string :: (knownKey("ContactInfoProps", k)) ==> !isExtKey(k)
+//@   ensures  [C01] lossless @@ result != nil ==> sameObject(jv(result), jv(data))
+//@   excluding lossless @@ nfKindAll(jv(data), "ContactInfoProps", "contact")
+//@   ensures  [C19] required-kept @@ result != nil ==> requiredPresent(jv(result), "contact")
+//@   excluding required-kept @@ nfKindAll(jv(data), "ContactInfoProps", "contact")
+
+//@ func verifLemmaLicenseRoundTrip
+//@   property C01, C19
+//@   requires isObj(jv(data)) && noDuplicates(jv(data))
+//@   requires nfKind(jv(data), "LicenseProps", "license") && nfExtensions(jv(data))
+//@   requires requiredPresent(jv(data), "license")
+//@   requires forall k string :: oCnt(jv(data), k) > 0 ==> knownKey("LicenseProps", k) || isExtKey(k)
+//@   requires forall k string :: (knownKey("LicenseProps", k)) ==> !isExtKey(k)
+//@   ensures  [C01] lossless @@ result != nil ==> sameObject(jv(result), jv(data))
+//@   excluding lossless @@ nfKindAll(jv(data), "LicenseProps", "license")
+//@   ensures  [C19] required-kept @@ result != nil ==> requiredPresent(jv(result), "license")
+//@   excluding required-kept @@ nfKindAll(jv(data), "LicenseProps", "license")
+
+//@ func verifLemmaTagRoundTrip
+//@   property C01, C19
+//@   requires isObj(jv(data)) && noDuplicates(jv(data))
+//@   requires nfKind(jv(data), "TagProps", "tag") && nfExtensions(jv(data))
+//@   requires requiredPresent(jv(data), "tag")
+//@   requires forall k string :: oCnt(jv(data), k) > 0 ==> knownKey("TagProps", k) || isExtKey(k)
+//@   requires forall k string :: (knownKey("TagProps", k)) ==> !isExtKey(k)
+//@   ensures  [C01] lossless @@ result != nil ==> sameObject(jv(result), jv(data))
+//@   excluding lossless @@ nfKindAll(jv(data), "TagProps", "tag")
+//@   ensures  [C19] required-kept @@ result != nil ==> requiredPresent(jv(result), "tag")
+//@   excluding required-kept @@ nfKindAll(jv(data), "TagProps", "tag")
+
+//@ func verifLemmaHeaderRoundTrip
+//@   property C01, C19
+//@   requires isObj(jv(data)) && noDuplicates(jv(data))
+//@   requires nfKind(jv(data), "CommonValidations", "header") && nfKind(jv(data), "SimpleSchema", "header") && nfKind(jv(data), "HeaderProps", "header") && nfExtensions(jv(data))
+//@   requires requiredPresent(jv(data), "header")
+//@   requires forall k string :: oCnt(jv(data), k) > 0 ==> knownKey("CommonValidations", k) || knownKey("SimpleSchema", k) || knownKey("HeaderProps", k) || isExtKey(k)
+//@   requires forall k string :: (knownKey("CommonValidations", k) || knownKey("SimpleSchema", k) || knownKey("HeaderProps", k)) ==> !isExtKey(k)
+//@   ensures  [C01] lossless @@ result != nil ==> sameObject(jv(result), jv(data))
+//@   excluding lossless @@ nfKindAll(jv(data), "CommonValidations", "header") && nfKindAll(jv(data), "SimpleSchema", "header") && nfKindAll(jv(data), "HeaderProps", "header")
+//@   ensures  [C19] required-kept @@ result != nil ==> requiredPresent(jv(result), "header")
+//@   excluding required-kept @@ nfKindAll(jv(data), "CommonValidations", "header") && nfKindAll(jv(data), "SimpleSchema", "header") && nfKindAll(jv(data), "HeaderProps", "header")
